@@ -108,8 +108,81 @@ func RunMode(prop, tier string, seed uint64, worker, run int, mode string) *RunR
 		if v := runTwin(prop, mode, cfg, prof, res.Ops, s); v != nil {
 			res.Viol = append(res.Viol, *v)
 		}
+	} else if mode != "" {
+		if v := twinOnFatal(prop, mode, cfg, prof, res.Ops, s); v != nil {
+			res.Viol = append(res.Viol, *v)
+		}
 	}
 	return res
+}
+
+// twinOnFatal: twin A ended with a fatal violation (of whatever property). If the
+// twin world B executes the same history without a fatal violation, then the
+// transformation the property declares invisible (registering filters, Shrink,
+// Reset vs fresh world, batch vs singles, typed vs ID-based) made the difference.
+func twinOnFatal(prop, mode string, cfg Config, prof *Profile, ops []Op, a *Sim) *Violation {
+	tprop, oracle := twinOracle(mode)
+	if tprop != prop || mode == "twin:stats" {
+		return nil
+	}
+	var fv *Violation
+	for i := range a.Viol {
+		if a.Viol[i].Fatal {
+			fv = &a.Viol[i]
+			break
+		}
+	}
+	if fv == nil || fv.Prop == prop {
+		return nil
+	}
+	end := fv.OpIdx + 1
+	if end > len(ops) {
+		end = len(ops)
+	}
+	cfg.WeakOn = false
+	flags := twinFlags(mode)
+	flags.NoOracles = false
+	flags.Observe = false
+	var b *Sim
+	if mode == "twin:reset" {
+		k := a.lastReset
+		if k < 0 || a.resetSnap == nil || fv.OpIdx <= k {
+			return nil
+		}
+		b = NewSim(cfg, Flags{}, prof)
+		defer b.Done()
+		for len(b.pads) < a.resetSnap.pads {
+			b.pads = append(b.pads, ecs.TypeID(b.W, PadType(len(b.pads))))
+		}
+		for _, spec := range a.resetSnap.filters {
+			sp := spec
+			b.opNewFilter(&Op{K: KNewFilter, Spec: &sp})
+		}
+		for _, o := range a.resetSnap.observers {
+			sp := o.Spec
+			b.opNewObserver(&Op{K: KNewObserver, Obs: &sp, Scr: o.Script, N: 1})
+		}
+		for i := k + 1; i < end && !b.fatal; i++ {
+			b.OpIdx = i
+			b.Step(&ops[i])
+		}
+	} else {
+		b = NewSim(cfg, flags, prof)
+		defer b.Done()
+		for i := 0; i < end && !b.fatal; i++ {
+			b.OpIdx = i
+			b.Step(&ops[i])
+		}
+	}
+	if b.fatal {
+		return nil
+	}
+	k := "?"
+	if fv.OpIdx < len(ops) {
+		k = ops[fv.OpIdx].K
+	}
+	return &Violation{Prop: prop, Oracle: oracle, Sig: prop + "/" + oracle + "/fails_only_in_A/" + k, OpIdx: fv.OpIdx, Fatal: false,
+		Msg: fmt.Sprintf("the history fails at op %d (%s) with [%s] %s -- but the twin world (%s) executes it without failure", fv.OpIdx, k, fv.Sig, clip(fv.Msg, 300), mode)}
 }
 
 // ExecMode executes a recorded history in the given mode and returns all violations.
@@ -120,6 +193,10 @@ func ExecMode(prop, tier, mode string, cfg Config, ops []Op) []Violation {
 	viol := res.Viol
 	if mode != "" && !s.fatal {
 		if v := runTwin(prop, mode, cfg, prof, ops, s); v != nil {
+			viol = append(viol, *v)
+		}
+	} else if mode != "" {
+		if v := twinOnFatal(prop, mode, cfg, prof, ops, s); v != nil {
 			viol = append(viol, *v)
 		}
 	}
